@@ -16,7 +16,7 @@ import ast
 from ..alg import AlgError, Context, Rat
 from ..extract import Extractor, Closure, Opaque, PathRaises, ReturnValue, _dotted
 from ..spacing import SpacingEx, constraint_value
-from ..model import Program, walk_own, is_self_attr
+from ..model import Program, walk_own, is_self_attr, canon
 from ..report import AnalysisError
 from .. import slices
 
@@ -276,7 +276,7 @@ def r5(prog, rep):
     src = mod.code(f.node)
     n = 0
     for nm in ("core", "sol", "sol_inner", "pf_lower", "pf_upper"):
-        w = "self.psi_%s=with_default(self.user_options.psi_%s,self._psinorm_to_psi(self.user_options.psinorm_%s),)" % (nm, nm, nm)
+        w = canon("self.psi_%s = with_default(self.user_options.psi_%s, self._psinorm_to_psi(self.user_options.psinorm_%s))" % (nm, nm, nm))
         n += 1
         rep.ob("R5", "psi_%s is the psi_* option, defaulting to the psinorm_* option converted to psi" % nm, w in src, f.site(), "", key="limits/" + nm)
     g2 = mod.funcs.get("TokamakEquilibrium._psinorm_to_psi")
